@@ -59,6 +59,35 @@ chk("C18", "fmt", "exploration",
     "Trusted: the strict reader (self-tested against near-miss strings).",
     "bounded exhaustive enumeration of inputs with an independent reader as oracle", "DESIGN.md 5/C18")
 
+chk("C07", "nopanic", "exploration",
+    "Supervised child processes (crash/hang attributed to the in-flight chunk) with a counting allocator run: every symbol string up to length 5 (6) through 3 decoding paths; one-edit deviations, numeric bombs and 100 KB inputs for 30 core sentences; every truncation and 6 byte values at every offset of every distinct corpus file (1341 files); hostile header counts singly and in pairs, extreme time fields; boundary-value products through every public constructor, query, getter and Display on 659 zones with extreme transitions/leap records; every accepted input is then used. Both with overflow checks + debug assertions and without.",
+    "Oracle is 'returns a value or an error within the allocation and time bounds'; values are not judged here. Inputs outside the enumerated deviation bound are not explored. Allocation bound: peak live bytes <= 8 x input + 4 KiB per parser call, single request <= 1 GiB.",
+    "deviation-bounded exhaustive enumeration of hostile inputs under a fault-observing supervisor", "DESIGN.md 5/C07")
+chk("C08", "tzif", "exploration",
+    "Independent writer: 1728 zone shapes (counts, designation pools with shared/overlapping/empty strings, indicator layouts, 32/64-bit extreme times, footers) encoded as v1/v2/v3 with a different zone in the 32-bit block of v2+ files, decoded zone compared with TimeZone::new(expected parts); independent reader: all 1796 corpus files (fat + slim, incl. right/ and v3); every corruption class of the property applied to the synthesised files must be rejected (error kind compared where the class determines it).",
+    "Trusted: the independent writer/reader (RFC 8536) and the TZ-string recogniser. One slim corpus file (America/Ojinaga as produced by this image's zic) violates RFC 8536 3.3 (footer inconsistent with last transition) and is expected to be refused (C13); it is listed in evidence. A footer truncated to a single newline is not judged.",
+    "bounded exhaustive enumeration of file shapes and single-field corruptions against an independent codec", "DESIGN.md 5/C08")
+chk("C09", "tzstr", "model_checking",
+    "Reference recogniser (recursive descent, states = recogniser steps) vs the implementation on: every string of <=6 (7) symbols over an 18-symbol TZ alphabet, alone and behind 11 grammar prefixes (<=5 (6) symbols); 178k sentences of a bounded grammar (names x offsets x DST parts x 17 day notations^2 x 12 times^2 x trailing); all one-edit (two-edit for the shortest) deviations of 30 core sentences; each through three decoding paths (settings = extensions off, v2 footer = off, v3 footer = on); accept/reject and the decoded zone must match.",
+    "Trusted: the recogniser. AlternateTime::new is used as a sub-oracle for the consistency condition (C11's subject) and cross-checked against the model on a subset.",
+    "exhaustive enumeration of short strings and bounded-grammar sentences against a reference recogniser", "DESIGN.md 5/C09")
+chk("C12", "leap", "model_checking",
+    "Two-scale clock model: every +-1 sign sequence of length 1..4 (5) x 3 first-record times x 3 spacings plus the real 27-record table; probe zones with transitions at record-3..record+3, +-1h and far; every UTC second of a +-40 s walk around the switch (forward lookup must switch exactly at the model's instant) and the local readings around the gap (search must report the transition at that instant and return every walked instant).",
+    "Trusted: leap model (U_i = L_i - c_(i-1)). I5: the label deleted by a negative leap second is identified with its successor; readings whose candidate instant is a deleted label are not judged.",
+    "explicit-state walk of a two-scale clock model, every state compared with the implementation", "DESIGN.md 5/C12")
+chk("C13", "zonecons", "exploration",
+    "Small world, complete: all transition sequences of length 0..3 over 5 times x 4 indices with 0..2 types, 5 leap tables and 4-5 trailing rules; all leap sequences of length 0..3 over 8 times x 7 corrections; trailing rules differing from the last type in exactly one attribute; DST rule agreeing/disagreeing around rule transitions; all designations up to length 7 (9) over 8 symbols x 4 offsets. Reference validator decides accept / error kind (single-defect inputs); owned and borrowed constructors must agree.",
+    "Trusted: reference validator, rule model. KF1-tagged case tallied as known finding.",
+    "bounded exhaustive enumeration of constructor inputs against a reference validator", "DESIGN.md 5/C13")
+chk("C14", "dtinv", "exploration",
+    "Boundary instants x boundary offsets through every construction path (fields, timestamp+type, timestamp+zone, total nanoseconds, projections) must agree with the calendar model and with each other; projection chains over 6 zones cubed keep (unix_time, ns); all pairs of a value set for == / partial_cmp; DateTime::new refusals on a field product; plus the invariant on every DateTime (both halves of every gap entry) returned by the search sweeps of engine find (monitor).",
+    "Trusted: calendar model. from_timespec paths are judged on 'fields representable', DateTime::new additionally on 'instant in supported range' (the only clause the statement makes).",
+    "bounded exhaustive enumeration with an invariant monitor on every produced value", "DESIGN.md 5/C14")
+chk("C20", "resolve", "model_checking",
+    "Protocol model of TZ resolution (states = configurations, transitions = file-open requests): complete product of 32 TZ values x 18 ordered directory lists x every assignment of 6 file states to the candidate paths plus a path that must never be opened (258k configurations); the logged sequence of read requests and the outcome (incl. decoded zone) must equal the model's; parse_local == parse_posix_tz(\"localtime\").",
+    "Trusted: the protocol model written from the property statement; injectable reader (the real file system is not involved).",
+    "exhaustive enumeration of environment answers (virtual file systems) against a protocol model", "DESIGN.md 5/C20")
+
 NOT_YET = "check not built yet in this revision (see DESIGN.md for the planned engine)"
 manifest = {
     "version": 1,
